@@ -848,3 +848,522 @@ Proof.
            ++ split; [discriminate | rewrite in_remove_z; intros [_ E]; congruence].
         -- apply (thread_other s _ t u N (T u)); sproj; [apply upd_other; exact N | tauto | tauto | rewrite in_remove_z; tauto].
 Qed.
+
+(* ---------------------------------------------------------------- the drain *)
+Lemma OWN_from_lock : 18014398509481984 + 9007199254740992 + 2147483648 * 1 - 2199023255552 * 4095 = OWN.
+Proof. reflexivity. Qed.
+Lemma OWN_unlock : owned_unlock OWN = OWN.
+Proof. reflexivity. Qed.
+Lemma owned_is_OWN c s t o : Inv c s -> owned_of (pcs s t) = Some o -> o = OWN.
+Proof. intros [_ T] H. destruct (T t) as (_ & _ & _ & T4 & _). apply T4. exact H. Qed.
+
+Lemma step_lock c s t fl s' : Inv c s -> pcs s t = PW_lock fl -> gstep c s t = Some s' -> Inv c s'.
+Proof.
+  intros I Hpc B. unfold gstep in B. rewrite Hpc in B. pose proof I as [[r G] T].
+  pose proof (holder s t (T t)) as K. rewrite Hpc in K. specialize (K eq_refl).
+  pose proof G as G'. destruct G'. rewrite K in *. rewrite Hpc in *. cbn [locked_pc latched_pc running_pc] in *.
+  destruct g_lock0 as [Vt (O & Ib & Wq)]. pose proof g_wf0 as W. unfold wfr in W.
+  assert (En : f_enq r = 1) by (apply g_enq0; discriminate).
+  rewrite g_enc0 in B. rewrite (lock_fields r t fl 0 g_wf0 Vt) in B.
+  destruct (lock_free r) eqn:LF.
+  - destruct ((f_role r mod 2 =? 1) && (fl <? f_mq r)) eqn:OV.
+    + (* the lock would need a QoS override first: retry with the queue's max QoS as floor *)
+      injection B as <-.
+      apply Inv_holder_move; rewrite ?Hpc; try reflexivity; try discriminate. exact I.
+    + rewrite En, Wq in B. rewrite OWN_from_lock in B.
+      change (OWN =? 0) with false in B. cbv iota in B. injection B as <-.
+      set (r' := mk t 0 1 (f_mq r) 0 (f_role r) 0 0 0 4096 1 0) in *.
+      split.
+      * exists r'. subst r'. constructor; sproj; rewrite ?K; unfold mk; cbn [f_tr f_em f_pb f_hi f_role f_enq f_d];
+          try assumption; try lia; try reflexivity.
+        -- apply wfr_mk; unfold valid_tid in Vt; lia.
+        -- split; [discriminate | reflexivity].
+        -- rewrite upd_same. cbn [locked_pc]. split; [exact Vt | unfold held; cbn; auto].
+        -- intros _ _. left. discriminate.
+        -- intros w E. injection E as <-. rewrite upd_same. discriminate.
+        -- rewrite upd_same. exact g_latched0.
+        -- rewrite upd_same. exact g_running0.
+      * intros u. destruct (Z.eq_dec u t) as [->|N].
+        -- unfold thread_inv. sproj. rewrite upd_same. cbn [token_pc locked_pc waker_pc rwaker_pc owned_of qos_of orb].
+           destruct (T t) as (_ & T2 & T3 & _). rewrite Hpc in T2, T3. cbn [waker_pc rwaker_pc] in T2, T3.
+           split; [|split; [|split; [|split; [|split]]]]; try (intros; discriminate); auto.
+           ++ split; auto.
+           ++ intros o E. injection E as <-. reflexivity.
+        -- apply (thread_other s _ t u N (T u)); sproj; [apply upd_other; exact N | tauto | tauto | tauto].
+  - (* suspended: the lock is refused and the enqueued bit dropped; the suspension is responsible *)
+    change (0 =? 0) with true in B. cbv iota in B. injection B as <-.
+    assert (Hh : 0 < f_hi r).
+    { unfold lock_free in LF. rewrite O, g_em0, Ib, Wq in LF. cbn [Z.eqb Z.ltb Z.compare andb] in LF.
+      apply Z.eqb_neq in LF. lia. }
+    set (r' := mk (f_owner r) (f_tr r) (1 - f_enq r) (f_mq r) (f_ov r) (f_role r) (f_em r) (f_d r) (f_pb r) (f_wq r) (f_ib r) (f_hi r)) in *.
+    split.
+    + exists r'. subst r'. constructor; sproj; unfold mk; cbn [f_tr f_em f_pb f_hi f_role f_enq f_d];
+        try assumption; try lia; try reflexivity.
+      * apply wfr_mk; lia.
+      * rewrite En. split; [discriminate | congruence].
+      * unfold free; cbn; auto.
+    + intros u. destruct (Z.eq_dec u t) as [->|N].
+      * unfold thread_inv. sproj. rewrite upd_same. cbn [token_pc locked_pc waker_pc rwaker_pc owned_of qos_of orb].
+        destruct (T t) as (_ & T2 & T3 & _). rewrite Hpc in T2, T3. cbn [waker_pc rwaker_pc] in T2, T3.
+        split; [|split; [|split; [|split; [|split]]]]; try (intros; discriminate); auto.
+        split; discriminate.
+      * apply (thread_other s _ t u N (T u)); sproj; [apply upd_other; exact N | | tauto | tauto].
+        rewrite K. split; intros E; [discriminate | injection E as E; congruence].
+Qed.
+
+Ltac own_goal := intros ?o ?E; injection E as <-; reflexivity.
+
+Lemma step_wsusp c s t o s' : Inv c s -> pcs s t = PW_susp o -> gstep c s t = Some s' -> Inv c s'.
+Proof.
+  intros I Hpc B. unfold gstep in B. rewrite Hpc in B. injection B as <-.
+  assert (o = OWN) by (apply (owned_is_OWN c s t); [exact I | rewrite Hpc; reflexivity]). subst o. rewrite OWN_unlock.
+  destruct (suspended_word (st s)); apply Inv_holder_move; rewrite ?Hpc; try reflexivity; try discriminate; auto; own_goal.
+Qed.
+
+Lemma step_wflags c s t o s' : Inv c s -> pcs s t = PW_flags o -> gstep c s t = Some s' -> Inv c s'.
+Proof.
+  intros I Hpc B. unfold gstep in B. rewrite Hpc in B. injection B as <-.
+  assert (o = OWN) by (apply (owned_is_OWN c s t); [exact I | rewrite Hpc; reflexivity]). subst o. rewrite OWN_unlock.
+  destruct (cancelled s) eqn:Ca; apply Inv_holder_move; rewrite ?Hpc; try reflexivity; try discriminate; auto; own_goal.
+Qed.
+
+Lemma step_wpend c s t o s' : Inv c s -> pcs s t = PW_pend o -> gstep c s t = Some s' -> Inv c s'.
+Proof.
+  intros I Hpc B. unfold gstep in B. rewrite Hpc in B. injection B as <-.
+  assert (o = OWN) by (apply (owned_is_OWN c s t); [exact I | rewrite Hpc; reflexivity]). subst o. rewrite OWN_unlock.
+  destruct (Z.eqb_spec (pend s) 0) as [P0|P0]; apply Inv_holder_move; rewrite ?Hpc; try reflexivity; try discriminate; auto; own_goal.
+Qed.
+
+Lemma step_wpost c s t o s' : Inv c s -> pcs s t = PW_post o -> gstep c s t = Some s' -> Inv c s'.
+Proof.
+  intros I Hpc B. unfold gstep in B. rewrite Hpc in B. injection B as <-.
+  assert (o = OWN) by (apply (owned_is_OWN c s t); [exact I | rewrite Hpc; reflexivity]). subst o. rewrite OWN_unlock.
+  destruct (cancelled s || negb (starve c)); apply Inv_holder_move; rewrite ?Hpc; try reflexivity; try discriminate; auto; own_goal.
+Qed.
+
+Lemma step_wpost2 c s t o s' : Inv c s -> pcs s t = PW_post2 o -> gstep c s t = Some s' -> Inv c s'.
+Proof.
+  intros I Hpc B. unfold gstep in B. rewrite Hpc in B. injection B as <-.
+  assert (o = OWN) by (apply (owned_is_OWN c s t); [exact I | rewrite Hpc; reflexivity]). subst o. rewrite OWN_unlock.
+  destruct (Z.eqb_spec (pend s) 0) as [P0|P0]; apply Inv_holder_move; rewrite ?Hpc; try reflexivity; try discriminate; auto; own_goal.
+Qed.
+
+(* a step of the token holder that changes ghost / data state: the other threads are unaffected *)
+Lemma threads_after_holder_step s s' t p' :
+  (forall u, thread_inv s u) -> token s = Some (Some t) -> token s' = Some (Some t) -> wakers s' = wakers s ->
+  rwakers s' = rwakers s -> pcs s' = upd (pcs s) t p' -> token_pc p' = true ->
+  (forall o, owned_of p' = Some o -> o = OWN) -> (forall o x, p' = PW_call o x -> x <> 0) ->
+  forall u, thread_inv s' u.
+Proof.
+  intros T K K' Wk RWk P H O CZ u. destruct (Z.eq_dec u t) as [->|N].
+  - destruct (T t) as (T1 & T2 & T3 & T4 & T5 & T6). apply T1 in K.
+    assert (NW0 : waker_pc (pcs s t) = false) by (destruct (pcs s t); cbn in K |- *; try discriminate; reflexivity).
+    assert (NR0 : rwaker_pc (pcs s t) = false) by (destruct (pcs s t); cbn in K |- *; try discriminate; reflexivity).
+    unfold thread_inv. rewrite P, upd_same, K', Wk, RWk.
+    split; [|split; [|split; [|split; [|split]]]]; auto.
+    + split; auto.
+    + split; [destruct p'; cbn in H |- *; discriminate | intros Hin; apply T2 in Hin; congruence].
+    + split; [destruct p'; cbn in H |- *; discriminate | intros Hin; apply T3 in Hin; congruence].
+    + intros q E. destruct p'; cbn in H, E; discriminate.
+  - apply (thread_other s _ t u N (T u)); [rewrite P; apply upd_other; exact N | rewrite K, K'; tauto | rewrite Wk; tauto | rewrite RWk; tauto].
+Qed.
+
+Lemma latch_next_cases k o x : (x = 0 /\ latch_next k o x = PW_post o) \/ (x <> 0 /\ latch_next k o x = PW_call o x).
+Proof.
+  unfold latch_next. destruct (Z.eqb_spec x 0) as [->|N]; [left|right]; split; auto. destruct (SrcData.is_replace k); reflexivity.
+Qed.
+
+Lemma step_latch c s t o s' : Inv c s -> pcs s t = PW_latch o -> gstep c s t = Some s' -> Inv c s'.
+Proof.
+  intros I Hpc B. unfold gstep in B. rewrite Hpc in B. injection B as <-.
+  assert (o = OWN) by (apply (owned_is_OWN c s t); [exact I | rewrite Hpc; reflexivity]). subst o.
+  destruct I as [[r G] T].
+  pose proof (holder s t (T t)) as K. rewrite Hpc in K. specialize (K eq_refl).
+  destruct G. rewrite K in *. rewrite Hpc in *. cbn [locked_pc latched_pc running_pc] in *.
+  assert (Lv : (match latch_next (ck c) OWN (pend s) with PW_call _ x => x | _ => 0 end) = pend s).
+  { destruct (latch_next_cases (ck c) OWN (pend s)) as [[Z0 ->]|[NZ ->]]; [congruence|reflexivity]. }
+  split.
+  - exists r. constructor; sproj; rewrite ?K, ?upd_same; try assumption; try lia.
+    + destruct (latch_next_cases (ck c) OWN (pend s)) as [[_ ->]|[_ ->]]; exact g_lock0.
+    + rewrite Lv. apply data_ok_latch. rewrite <- g_latched0. exact g_data0.
+    + destruct (latch_next_cases (ck c) OWN (pend s)) as [[_ ->]|[_ ->]]; reflexivity.
+    + destruct (latch_next_cases (ck c) OWN (pend s)) as [[_ ->]|[_ ->]]; exact g_running0.
+  - apply (threads_after_holder_step s _ t (latch_next (ck c) OWN (pend s))); auto.
+    + destruct (latch_next_cases (ck c) OWN (pend s)) as [[_ ->]|[_ ->]]; reflexivity.
+    + intros o E. destruct (latch_next_cases (ck c) OWN (pend s)) as [[_ L]|[_ L]]; rewrite L in E; injection E as <-; reflexivity.
+    + intros o x E. destruct (latch_next_cases (ck c) OWN (pend s)) as [[_ L]|[NZ L]]; rewrite L in E; [discriminate|].
+      injection E as _ <-. exact NZ.
+Qed.
+
+Lemma step_call c s t o x s' : Inv c s -> pcs s t = PW_call o x -> gstep c s t = Some s' -> Inv c s'.
+Proof.
+  intros I Hpc B. unfold gstep in B. rewrite Hpc in B. injection B as <-.
+  assert (o = OWN) by (apply (owned_is_OWN c s t); [exact I | rewrite Hpc; reflexivity]). subst o.
+  destruct I as [[r G] T].
+  pose proof (holder s t (T t)) as K. rewrite Hpc in K. specialize (K eq_refl).
+  destruct (T t) as (_ & _ & _ & _ & _ & T6). pose proof (T6 _ _ Hpc) as NZ.
+  destruct G. rewrite K in *. rewrite Hpc in *. cbn [locked_pc latched_pc running_pc] in *.
+  split.
+  - exists r. constructor; sproj; rewrite ?K, ?upd_same; try assumption; try lia; try reflexivity.
+    + intros w E. injection E as <-. rewrite upd_same. intros _. apply (g_dirty0 t); auto. rewrite Hpc. reflexivity.
+    + apply data_ok_deliver; [|exact NZ]. rewrite <- g_latched0. exact g_data0.
+  - apply (threads_after_holder_step s _ t (PW_incall OWN)); auto; [own_goal | discriminate].
+Qed.
+
+Lemma step_incall c s t o s' : Inv c s -> pcs s t = PW_incall o -> gstep c s t = Some s' -> Inv c s'.
+Proof.
+  intros I Hpc B. unfold gstep in B. rewrite Hpc in B. injection B as <-.
+  assert (o = OWN) by (apply (owned_is_OWN c s t); [exact I | rewrite Hpc; reflexivity]). subst o.
+  destruct I as [[r G] T].
+  pose proof (holder s t (T t)) as K. rewrite Hpc in K. specialize (K eq_refl).
+  destruct G. rewrite K in *. rewrite Hpc in *. cbn [locked_pc latched_pc running_pc] in *.
+  split.
+  - exists r. constructor; sproj; rewrite ?K, ?upd_same; try assumption; try lia; try reflexivity.
+    intros w E. injection E as <-. rewrite upd_same. intros _. apply (g_dirty0 t); auto. rewrite Hpc. reflexivity.
+  - apply (threads_after_holder_step s _ t (PW_post OWN)); auto; [own_goal | discriminate].
+Qed.
+
+Lemma step_unlock c s t o s' : Inv c s -> pcs s t = PW_unlock o -> gstep c s t = Some s' -> Inv c s'.
+Proof.
+  intros I Hpc B. unfold gstep in B. rewrite Hpc in B.
+  assert (o = OWN) by (apply (owned_is_OWN c s t); [exact I | rewrite Hpc; reflexivity]). subst o.
+  pose proof I as I'. destruct I' as [[r G] T].
+  pose proof (holder s t (T t)) as K. rewrite Hpc in K. specialize (K eq_refl).
+  destruct G. rewrite K in *. rewrite Hpc in *. cbn [locked_pc latched_pc running_pc] in *.
+  destruct g_lock0 as [Vt (O & Ib & Wq)]. pose proof g_wf0 as W. unfold wfr in W.
+  assert (En : f_enq r = 1) by (apply g_enq0; discriminate).
+  rewrite g_enc0 in B.
+  change OWN with (18014398509481984 + 2199023255552 + 2147483648 * 1) in B.
+  assert (Others : forall p st', forall u, u <> t -> thread_inv (set_token (set_pc (set_st s st') t p) None) u).
+  { intros p st' u N. apply (thread_other s _ t u N (T u)); sproj; [apply upd_other; exact N | | tauto | tauto].
+    rewrite K. split; intros E; [discriminate | injection E as E; congruence]. }
+  assert (Self : forall st', thread_inv (set_token (set_pc (set_st s st') t Idle) None) t).
+  { intros st'. unfold thread_inv. sproj. rewrite upd_same. cbn [token_pc locked_pc waker_pc rwaker_pc owned_of qos_of orb].
+    destruct (T t) as (_ & T2 & T3 & _). rewrite Hpc in T2, T3. cbn [waker_pc rwaker_pc] in T2, T3.
+    split; [|split; [|split; [|split; [|split]]]]; try (intros; discriminate); auto. split; discriminate. }
+  destruct (Z.eqb_spec (f_hi r) 0) as [H0|H0].
+  - rewrite (unlock_fields r 1 g_wf0 H0 Ib Wq) in B by lia.
+    destruct (Z.eqb_spec (f_d r) 1) as [D|D].
+    + (* refused: somebody made the source dirty; clear the bit and look again *)
+      injection B as <-. change (18014398509481984 + 2199023255552 + 2147483648 * 1) with OWN.
+      apply Inv_holder_move; rewrite ?Hpc; try reflexivity; try discriminate; auto; own_goal.
+    + injection B as <-.
+      set (r' := mk 0 0 (f_enq r - 1) 0 0 (f_role r) (f_em r) 0 (f_pb r) 4095 0 0) in *.
+      split.
+      * exists r'. subst r'. constructor; sproj; unfold mk; cbn [f_tr f_em f_pb f_hi f_role f_enq f_d];
+          try assumption; try lia; try reflexivity.
+        -- apply wfr_mk; lia.
+        -- rewrite En. split; [discriminate | congruence].
+        -- unfold free; cbn; auto.
+        -- intros Hp Hc. right. left. intros Hw. apply D. apply (g_dirty0 t); auto. rewrite Hpc. reflexivity.
+        -- intros w X. discriminate X.
+      * intros u. destruct (Z.eq_dec u t) as [->|N]; [apply Self | apply Others; exact N].
+  - (* suspended: the lock is given back whatever DIRTY says; the suspension is responsible *)
+    assert (Hh : 0 < f_hi r) by lia.
+    rewrite (unlock_fields_susp r 1 g_wf0 Hh Ib Wq) in B by lia. injection B as <-.
+    set (r' := mk 0 0 (f_enq r - 1) (f_mq r) 0 (f_role r) (f_em r) (f_d r) (f_pb r) 4095 0 (f_hi r)) in *.
+    split.
+    + exists r'. subst r'. constructor; sproj; unfold mk; cbn [f_tr f_em f_pb f_hi f_role f_enq f_d];
+        try assumption; try lia; try reflexivity.
+      * apply wfr_mk; lia.
+      * rewrite En. split; [discriminate | congruence].
+      * unfold free; cbn; auto.
+    + intros u. destruct (Z.eq_dec u t) as [->|N]; [apply Self | apply Others; exact N].
+Qed.
+
+Lemma step_xor c s t o s' : Inv c s -> pcs s t = PW_xor o -> gstep c s t = Some s' -> Inv c s'.
+Proof.
+  intros I Hpc B. unfold gstep in B. rewrite Hpc in B. injection B as <-.
+  assert (o = OWN) by (apply (owned_is_OWN c s t); [exact I | rewrite Hpc; reflexivity]). subst o.
+  destruct I as [[r G] T].
+  pose proof (holder s t (T t)) as K. rewrite Hpc in K. specialize (K eq_refl).
+  destruct G. rewrite K in *. rewrite Hpc in *. cbn [locked_pc latched_pc running_pc] in *.
+  pose proof g_wf0 as W. unfold wfr in W.
+  unfold DIRTY. rewrite g_enc0. rewrite (xor_dirty_fields r g_wf0).
+  set (r' := mk (f_owner r) (f_tr r) (f_enq r) (f_mq r) (f_ov r) (f_role r) (f_em r) (1 - f_d r) (f_pb r) (f_wq r) (f_ib r) (f_hi r)).
+  set (p' := if troot c then PW_susp OWN else PW_fin OWN).
+  assert (Pp : locked_pc p' = true /\ examined_pc p' = false /\ latched_pc p' = 0 /\ running_pc t p' = None /\ token_pc p' = true).
+  { subst p'. destruct (troot c); cbn; auto. }
+  destruct Pp as (P1 & P2 & P3 & P4 & P5).
+  split.
+  - exists r'. subst r'. constructor; sproj; rewrite ?K, ?upd_same, ?P1, ?P3, ?P4; unfold mk; cbn [f_tr f_em f_pb f_hi f_role f_enq f_d];
+      try assumption; try lia; try reflexivity.
+    + apply wfr_mk; lia.
+    + intros w E. injection E as <-. rewrite upd_same, P2. discriminate.
+  - apply (threads_after_holder_step s _ t p'); auto.
+    + intros o E. unfold p' in E. destruct (troot c); injection E as <-; reflexivity.
+    + intros o x E. unfold p' in E. destruct (troot c); discriminate.
+Qed.
+
+Lemma step_fin c s t o s' : Inv c s -> pcs s t = PW_fin o -> gstep c s t = Some s' -> Inv c s'.
+Proof.
+  intros I Hpc B. unfold gstep in B. rewrite Hpc in B.
+  assert (o = OWN) by (apply (owned_is_OWN c s t); [exact I | rewrite Hpc; reflexivity]). subst o.
+  pose proof I as I'. destruct I' as [[r G] T].
+  pose proof (holder s t (T t)) as K. rewrite Hpc in K. specialize (K eq_refl).
+  destruct G. rewrite K in *. rewrite Hpc in *. cbn [locked_pc latched_pc running_pc] in *.
+  destruct g_lock0 as [Vt (O & Ib & Wq)]. pose proof g_wf0 as W. unfold wfr in W.
+  assert (En : f_enq r = 1) by (apply g_enq0; discriminate).
+  rewrite g_enc0 in B. unfold ENQUEUED in B.
+  change OWN with (18014398509481984 + 2199023255552 + 2147483648 * 1) in B.
+  rewrite (finish_fields r 1 g_wf0 Ib Wq) in B by lia.
+  rewrite (sub_owned r 1 g_wf0 Ib Wq) in B by lia.
+  set (e' := if (f_hi r =? 0) && (f_enq r - 1 =? 0) && (f_em r =? 0) then 1 else f_enq r - 1) in *.
+  assert (He' : e' = if f_hi r =? 0 then 1 else 0).
+  { subst e'. rewrite En, g_em0. cbn [Z.sub Z.eqb andb Z.add Z.opp Z.pos_sub]. destruct (f_hi r =? 0); reflexivity. }
+  set (r' := mk 0 0 e' (f_mq r) 0 (f_role r) (f_em r) 1 (f_pb r) 4095 0 (f_hi r)) in *.
+  assert (W' : wfr r') by (subst r'; apply wfr_mk; try lia; rewrite He'; destruct (f_hi r =? 0); lia).
+  assert (Wu : wfr (unown r 1)) by (apply unown_wf; [assumption|lia]).
+  rewrite (xor_enqueued (unown r 1) r' Wu W') in B.
+  assert (E1 : f_enq (unown r 1) = 0) by (unfold unown, mk; cbn [f_enq]; lia).
+  assert (E2 : f_enq r' = e') by reflexivity.
+  rewrite E1, E2, He' in B. cbn [Z.eqb xorb] in B.
+  destruct (Z.eqb_spec (f_hi r) 0) as [H0|H0].
+  - (* re-enqueue: the holder keeps the token and pushes the source on its target *)
+    cbn [Z.eqb xorb] in B. injection B as <-.
+    split.
+    + exists r'. subst r'. constructor; sproj; rewrite ?K, ?upd_same; unfold mk; cbn [f_tr f_em f_pb f_hi f_role f_enq f_d];
+        try assumption; try lia; try reflexivity.
+      * rewrite He'. split; [discriminate | reflexivity].
+      * cbn [locked_pc]. split; [exact Vt | unfold free; cbn; auto].
+    + apply (threads_after_holder_step s _ t PS_rootpush); auto; discriminate.
+  - (* suspended: the source is left un-enqueued and DIRTY; the suspension is responsible *)
+    cbn [Z.eqb xorb] in B. injection B as <-.
+    assert (Hh : 0 < f_hi r) by lia.
+    split.
+    + exists r'. subst r'. constructor; sproj; unfold mk; cbn [f_tr f_em f_pb f_hi f_role f_enq f_d];
+        try assumption; try lia; try reflexivity.
+      * rewrite He'. split; [discriminate | congruence].
+      * unfold free; cbn; auto.
+    + intros u. destruct (Z.eq_dec u t) as [->|N].
+      * unfold thread_inv. sproj. rewrite upd_same. cbn [token_pc locked_pc waker_pc rwaker_pc owned_of qos_of orb].
+        destruct (T t) as (_ & T2 & T3 & _). rewrite Hpc in T2, T3. cbn [waker_pc rwaker_pc] in T2, T3.
+        split; [|split; [|split; [|split; [|split]]]]; try (intros; discriminate); auto. split; discriminate.
+      * apply (thread_other s _ t u N (T u)); sproj; [apply upd_other; exact N | | tauto | tauto].
+        rewrite K. split; intros E; [discriminate | injection E as E; congruence].
+Qed.
+
+Theorem step_preserves c s a s' : Inv c s -> step c s a s' -> Inv c s'.
+Proof.
+  intros I H. destruct a as [t k|t]; destruct H as [V B].
+  - exact (begin_preserves c s t k s' I V B).
+  - destruct (pcs s t) eqn:Hpc.
+    + unfold gstep in B. rewrite Hpc in B. discriminate.
+    + unfold gstep in B. rewrite Hpc in B. discriminate.
+    + eapply step_mflags; eauto.
+    + eapply step_mop; eauto.
+    + eapply step_sflags; eauto.
+    + eapply step_spend; eauto.
+    + eapply step_swake; eauto.
+    + eapply step_rootpush; eauto.
+    + eapply step_cset; eauto.
+    + eapply step_urmw; eauto.
+    + eapply step_rrmw; eauto.
+    + eapply step_rflags; eauto.
+    + eapply step_rpend; eauto.
+    + eapply step_rwake; eauto.
+    + eapply step_lock; eauto.
+    + eapply step_wsusp; eauto.
+    + eapply step_wflags; eauto.
+    + eapply step_wpend; eauto.
+    + eapply step_latch; eauto.
+    + eapply step_call; eauto.
+    + eapply step_incall; eauto.
+    + eapply step_wpost; eauto.
+    + eapply step_wpost2; eauto.
+    + eapply step_unlock; eauto.
+    + eapply step_xor; eauto.
+    + eapply step_fin; eauto.
+Qed.
+
+Theorem Inv_reachable c rb s : 0 <= rb < 2 -> reach c rb s -> Inv c s.
+Proof.
+  intros Hrb. apply invariant_lift.
+  - intros s0 ->. apply Inv_init. exact Hrb.
+  - intros s1 a s2 I H. exact (step_preserves c s1 a s2 I H).
+Qed.
+
+(* ---------------------------------------------------------------- what the invariant says to a client *)
+Lemma waker_lists_empty c s : Inv c s -> quiescent s -> wakers s = [] /\ rwakers s = [] /\ (forall w, token s <> Some (Some w)).
+Proof.
+  intros [_ T] Q. split; [|split].
+  - destruct (wakers s) as [|w l] eqn:E; [reflexivity|]. destruct (T w) as (_ & T2 & _). rewrite Q in T2.
+    assert (In w (wakers s)) by (rewrite E; left; reflexivity). apply T2 in H. discriminate.
+  - destruct (rwakers s) as [|w l] eqn:E; [reflexivity|]. destruct (T w) as (_ & _ & T3 & _). rewrite Q in T3.
+    assert (In w (rwakers s)) by (rewrite E; left; reflexivity). apply T3 in H. discriminate.
+  - intros w K. destruct (T w) as (T1 & _). rewrite Q in T1. assert (token_pc Idle = true) by (apply T1; exact K). discriminate.
+Qed.
+
+(* the drain lock of the real dq_state word is exclusive: two threads inside the locked region are the same thread, and
+   the word names it as drain owner with the full width taken *)
+Theorem lock_exclusive c rb s t1 t2 :
+  0 <= rb < 2 -> reach c rb s -> locked_pc (pcs s t1) = true -> locked_pc (pcs s t2) = true -> t1 = t2.
+Proof.
+  intros Hrb R L1 L2. destruct (Inv_reachable c rb s Hrb R) as [_ T].
+  pose proof (holder s t1 (T t1)) as K1. pose proof (holder s t2 (T t2)) as K2.
+  unfold token_pc in K1, K2. rewrite L1 in K1. rewrite L2 in K2. specialize (K1 eq_refl). specialize (K2 eq_refl). congruence.
+Qed.
+
+Theorem locked_word c rb s t :
+  0 <= rb < 2 -> reach c rb s -> locked_pc (pcs s t) = true ->
+  exists r, st s = enc r /\ wfr r /\ f_owner r = t /\ f_ib r = 1 /\ f_wq r = 4096 /\ f_enq r = 1 /\ token s = Some (Some t).
+Proof.
+  intros Hrb R L. destruct (Inv_reachable c rb s Hrb R) as [[r G] T].
+  pose proof (holder s t (T t)) as K. unfold token_pc in K. rewrite L in K. specialize (K eq_refl).
+  destruct G. rewrite K in *. rewrite L in g_lock0. destruct g_lock0 as [_ (O & Ib & Wq)].
+  exists r. split; [exact g_enc0|]. split; [exact g_wf0|]. split; [exact O|]. split; [exact Ib|]. split; [exact Wq|].
+  split; [apply g_enq0; discriminate | reflexivity].
+Qed.
+
+(* the event handler runs only inside the locked region: never on two threads at once, whatever the target queue *)
+Theorem handler_exclusive c rb s t1 t2 o1 o2 :
+  0 <= rb < 2 -> reach c rb s -> pcs s t1 = PW_incall o1 -> pcs s t2 = PW_incall o2 -> t1 = t2 /\ running s = Some t1.
+Proof.
+  intros Hrb R P1 P2.
+  assert (E : t1 = t2) by (apply (lock_exclusive c rb s t1 t2 Hrb R); [rewrite P1 | rewrite P2]; reflexivity).
+  split; [exact E|]. destruct (Inv_reachable c rb s Hrb R) as [[r G] T]. destruct G.
+  pose proof (holder s t1 (T t1)) as K. rewrite P1 in K. specialize (K eq_refl).
+  rewrite g_running0, K, P1. reflexivity.
+Qed.
+Theorem running_is_locked c rb s t :
+  0 <= rb < 2 -> reach c rb s -> running s = Some t -> exists o, pcs s t = PW_incall o.
+Proof.
+  intros Hrb R Ru. destruct (Inv_reachable c rb s Hrb R) as [[r G] T]. destruct G. rewrite g_running0 in Ru.
+  destruct (token s) as [[w|]|]; try discriminate. destruct (pcs s w) eqn:E; cbn in Ru; try discriminate.
+  injection Ru as <-. eauto.
+Qed.
+
+(* pending data of an uncancelled source always has somebody responsible for it *)
+Theorem pending_has_responsible c rb s :
+  0 <= rb < 2 -> reach c rb s -> pend s <> 0 -> cancelled s = false ->
+  token s <> None \/ wakers s <> [] \/ rwakers s <> [] \/ suspended_word (st s) = true.
+Proof.
+  intros Hrb R P C. destruct (Inv_reachable c rb s Hrb R) as [[r G] T]. destruct G.
+  destruct (g_nostrand0 P C) as [X|[X|[X|X]]]; auto. right. right. right.
+  unfold suspended_word. rewrite g_enc0, (is_suspended_f r g_wf0). apply Z.ltb_lt. exact X.
+Qed.
+
+(* nothing is stranded: when no thread is inside an API call or a drain, an unsuspended uncancelled source with pending
+   data sits in its target queue (a worker of that queue can pick it up: `begin (CWorker _)` is enabled) *)
+Theorem not_stranded c rb s :
+  0 <= rb < 2 -> reach c rb s -> quiescent s -> pend s <> 0 -> cancelled s = false -> suspended_word (st s) = false ->
+  rootq s = 1 /\ token s = Some None /\ forall t fl, exists s', begin s t (CWorker fl) = Some s'.
+Proof.
+  intros Hrb R Q P C S. pose proof (Inv_reachable c rb s Hrb R) as I.
+  destruct (waker_lists_empty c s I Q) as (W0 & R0 & NH). destruct I as [[r G] T]. destruct G.
+  assert (H0 : ~ 0 < f_hi r).
+  { unfold suspended_word in S. rewrite g_enc0, (is_suspended_f r g_wf0) in S. apply Z.ltb_ge in S. lia. }
+  assert (K : token s = Some None).
+  { destruct (g_nostrand0 P C) as [X|[X|[X|X]]]; try congruence; try contradiction.
+    destruct (token s) as [[w|]|] eqn:K; [exfalso; apply (NH w); reflexivity | reflexivity | congruence]. }
+  assert (Rq : rootq s = 1) by (rewrite g_rootq0, K; reflexivity).
+  split; [exact Rq|]. split; [exact K|]. intros t fl. unfold begin. rewrite Q, Rq. cbn. eauto.
+Qed.
+
+(* the drainer that has looked cannot give the lock back over pending data: its unlock is refused (DIRTY) *)
+Theorem unlock_refused_over_pending c rb s t o :
+  0 <= rb < 2 -> reach c rb s -> pcs s t = PW_unlock o -> pend s <> 0 -> cancelled s = false -> wakers s = [] ->
+  suspended_word (st s) = false -> gstep c s t = Some (set_pc s t (PW_xor o)).
+Proof.
+  intros Hrb R Hpc P C W0 S. pose proof (Inv_reachable c rb s Hrb R) as I.
+  assert (o = OWN) by (apply (owned_is_OWN c s t); [exact I | rewrite Hpc; reflexivity]). subst o.
+  destruct I as [[r G] T]. pose proof (holder s t (T t)) as K. rewrite Hpc in K. specialize (K eq_refl).
+  destruct G. rewrite K in *. rewrite Hpc in *. cbn [locked_pc] in *. destruct g_lock0 as [Vt (O & Ib & Wq)].
+  assert (H0 : f_hi r = 0).
+  { unfold suspended_word in S. rewrite g_enc0, (is_suspended_f r g_wf0) in S. apply Z.ltb_ge in S.
+    pose proof g_wf0 as W. unfold wfr in W. lia. }
+  assert (En : f_enq r = 1) by (apply g_enq0; discriminate).
+  assert (D : f_d r = 1) by (apply (g_dirty0 t); auto; rewrite Hpc; reflexivity).
+  unfold gstep. rewrite Hpc, g_enc0. change OWN with (18014398509481984 + 2199023255552 + 2147483648 * 1).
+  rewrite (unlock_fields r 1 g_wf0 H0 Ib Wq) by lia. rewrite D. reflexivity.
+Qed.
+
+(* ---- the data, on this model ---- *)
+Lemma quiescent_unlatched c s : Inv c s -> quiescent s -> latched s = 0 /\ running s = None.
+Proof.
+  intros I Q. destruct (waker_lists_empty c s I Q) as (_ & _ & NH). destruct I as [[r G] _]. destruct G.
+  rewrite g_latched0, g_running0. destruct (token s) as [[w|]|]; auto. exfalso. apply (NH w). reflexivity.
+Qed.
+
+Theorem add_conservation c rb s : 0 <= rb < 2 -> reach c rb s -> ck c = SrcData.KindAdd ->
+  (SrcData.zsum (delivered s) + latched s + pend s) mod 2 ^ 64 = SrcData.zsum (merged s) mod 2 ^ 64 /\
+  (quiescent s -> pend s = 0 -> SrcData.zsum (delivered s) mod 2 ^ 64 = SrcData.zsum (merged s) mod 2 ^ 64) /\
+  (cancelled s = false -> dropped s = []).
+Proof.
+  intros Hrb R K. pose proof (Inv_reachable c rb s Hrb R) as I. pose proof I as [[r G] _]. destruct G.
+  destruct g_data0 as (A & B & C). cbn in A, B, C. rewrite K in C. change SrcData_proofs.M64 with (2 ^ 64) in C.
+  split; [exact C|]. split; [|exact B]. intros Q P0. destruct (quiescent_unlatched c s I Q) as [L0 _].
+  rewrite <- C, L0, P0. f_equal. ring.
+Qed.
+
+Theorem or_union c rb s : 0 <= rb < 2 -> reach c rb s -> ck c = SrcData.KindOr ->
+  Z.lor (SrcData.zlor (delivered s)) (Z.lor (latched s) (pend s)) = SrcData.zlor (merged s) /\
+  (quiescent s -> pend s = 0 -> SrcData.zlor (delivered s) = SrcData.zlor (merged s)) /\
+  (cancelled s = false -> dropped s = []).
+Proof.
+  intros Hrb R K. pose proof (Inv_reachable c rb s Hrb R) as I. pose proof I as [[r G] _]. destruct G.
+  destruct g_data0 as (A & B & C). cbn in A, B, C. rewrite K in C.
+  split; [exact C|]. split; [|exact B]. intros Q P0. destruct (quiescent_unlatched c s I Q) as [L0 _].
+  rewrite <- C, L0, P0. rewrite !Z.lor_0_r. reflexivity.
+Qed.
+
+Theorem replace_spec c rb s : 0 <= rb < 2 -> reach c rb s -> ck c = SrcData.KindReplace ->
+  Forall (fun d => In d (merged s)) (delivered s) /\
+  (latched s = 0 \/ In (latched s) (merged s)) /\ (pend s = 0 \/ In (pend s) (merged s)) /\
+  (forall v l, quiescent s -> merged s = v :: l -> v <> 0 -> pend s = 0 -> exists d, delivered s = v :: d) /\
+  (cancelled s = false -> dropped s = []).
+Proof.
+  intros Hrb R K. pose proof (Inv_reachable c rb s Hrb R) as I. pose proof I as [[r G] _]. destruct G.
+  destruct g_data0 as (A & B & C). cbn in A, B, C. rewrite K in C. destruct C as (C1 & C2 & C3 & C4).
+  repeat split; auto.
+  intros v l Q Em Nv P0. destruct (quiescent_unlatched c s I Q) as [L0 _].
+  rewrite Em in C4. cbn [hd] in C4. destruct C4 as [X|(_ & [X|(_ & X)])]; [congruence|congruence|].
+  destruct (delivered s) as [|d0 d]; cbn [hd] in X; [congruence|]. exists d. congruence.
+Qed.
+
+Theorem never_zero c rb s : 0 <= rb < 2 -> reach c rb s ->
+  Forall (fun d => d <> 0) (delivered s) /\ (forall t o x, pcs s t = PW_call o x -> x <> 0 /\ latched s = x).
+Proof.
+  intros Hrb R. pose proof (Inv_reachable c rb s Hrb R) as [[r G] T]. destruct G.
+  destruct g_data0 as (A & _). cbn in A. split; [exact A|]. intros t o x Hp.
+  destruct (T t) as (T1 & _ & _ & _ & _ & T6). split; [apply (T6 _ _ Hp)|].
+  assert (K : token s = Some (Some t)) by (apply T1; rewrite Hp; reflexivity).
+  rewrite g_latched0, K, Hp. reflexivity.
+Qed.
+
+(* ---------------------------------------------------------------- no stuck state *)
+(* no step of the protocol waits for another thread: every thread inside a call or a drain has an enabled step (the
+   rmw loops always commit or give up on a word that satisfies the invariant) *)
+Theorem step_enabled c rb s t :
+  0 <= rb < 2 -> reach c rb s -> valid_tid t -> pcs s t <> Idle -> pcs s t <> POut -> exists s', gstep c s t = Some s'.
+Proof.
+  intros Hrb R Vt NI NO. pose proof (Inv_reachable c rb s Hrb R) as I. pose proof I as [[r G] T].
+  destruct (T t) as (T1 & T2 & T3 & T4 & T5 & T6). pose proof G as G'. destruct G'. pose proof g_wf0 as W. unfold wfr in W.
+  unfold gstep. destruct (pcs s t) eqn:Hpc; try contradiction; try (eexists; reflexivity).
+  - (* PU_rmw *) destruct (suspend_loop 0 (st s)); eexists; reflexivity.
+  - (* PR_rmw *) rewrite g_enc0, (resume_src_fields r g_wf0 g_hi0).
+    destruct (f_hi r <? 8); [eexists; reflexivity|]. cbv zeta.
+    destruct (runnable_b (set_hi r (f_hi r - 8)) && (f_owner r =? 0)).
+    + match goal with |- context [nz ?x] => destruct (nz x) end; [eexists; reflexivity|].
+      match goal with |- context [suspended_word ?x] => destruct (suspended_word x) end; [eexists; reflexivity|].
+      match goal with |- context [if nz ?x then _ else _] => destruct (nz x) end; [eexists; reflexivity|].
+      match goal with |- context [negb ?x] => destruct x end; eexists; reflexivity.
+    + match goal with |- context [nz ?x] => destruct (nz x) end; [eexists; reflexivity|].
+      match goal with |- context [suspended_word ?x] => destruct (suspended_word x) end; [eexists; reflexivity|].
+      match goal with |- context [if nz ?x then _ else _] => destruct (nz x) end; [eexists; reflexivity|].
+      match goal with |- context [negb ?x] => destruct x end; eexists; reflexivity.
+  - (* PR_wake *) pose proof (T5 q eq_refl) as Q. rewrite g_enc0. unfold ENQUEUED.
+    rewrite (wakeup_fields_plain r q 1 1 g_wf0 Q eq_refl). cbv zeta.
+    match goal with |- context [if ?x =? ?y then _ else _] => destruct (x =? y) end; eexists; reflexivity.
+  - (* PW_lock *) rewrite g_enc0, (lock_fields r t floor 0 g_wf0 Vt).
+    destruct (lock_free r); [destruct ((f_role r mod 2 =? 1) && (floor <? f_mq r))|]; eexists; reflexivity.
+  - (* PW_unlock *)
+    assert (owned = OWN) by (apply T4; reflexivity). subst owned.
+    assert (K : token s = Some (Some t)) by (apply T1; reflexivity).
+    rewrite K, Hpc in g_lock0. cbn [locked_pc] in g_lock0. destruct g_lock0 as [_ (O & Ib & Wq)].
+    assert (En : f_enq r = 1) by (apply g_enq0; rewrite K; discriminate).
+    rewrite g_enc0. change OWN with (18014398509481984 + 2199023255552 + 2147483648 * 1).
+    destruct (Z.eqb_spec (f_hi r) 0) as [H0|H0].
+    + rewrite (unlock_fields r 1 g_wf0 H0 Ib Wq) by lia. destruct (f_d r =? 1); eexists; reflexivity.
+    + rewrite (unlock_fields_susp r 1 g_wf0) by lia. eexists; reflexivity.
+Qed.
